@@ -814,9 +814,10 @@ class C05(Prop):
     strength = ("proved (unbounded, every accepted packet): uncompress returns the 12 header bytes followed by the question and every record of "
                 "the declarative reading of the packet re-encoded without compression pointers - owner names and the names inside NS/CNAME/"
                 "PTR/MX/SOA data label by label, type/class/TTL as read, data length recomputed, opaque data byte for byte, in order; no "
-                "Panic outcome (C05_uncompress_is_plain_encoding; also C05_header_kept, C05_name_copy_appends). PARTIAL: that the output is "
-                "accepted again and is a fixed point, and the translation of record boundaries other than offset 12, are decided each run "
-                "by the correspondence and by exact comparison with the independent canonical encoder at every boundary of every packet.")
+                "Panic outcome (C05_uncompress_is_plain_encoding); that output is accepted by the parser again, reads as the same question and "
+                "records (equal plain records of the two unique readings) and is a fixed point of decompression (C05_roundtrip, "
+                "C05_reading_unique; also C05_header_kept, C05_name_copy_appends). PARTIAL: the translation of record boundaries other than "
+                "offset 12 is decided each run by exact comparison with the independent canonical encoder at every boundary of every packet.")
     assumptions = ["bytes < 256", "the reference offset is a record boundary (documented precondition of uncompress_with_previous_offset)"]
 
     def gen(self, rng, tier):
